@@ -103,3 +103,11 @@ Theorem C09_closed_sets_filter_keeps_useful_items : forall g axiom NL FIt FOt, c
   keep_closed NL (fun x => nth x FIt []) (fun x => nth x FOt []) (next w p) i = true.
 Proof. intros g axiom NL FIt FOt H. exact (closed_filter_keeps_useful_items g axiom NL _ _ H). Qed.
 Print Assumptions C09_closed_sets_filter_keeps_useful_items.
+
+(* while the count of recoveries is the same, the parsing list only grows: what was below the place of caching is still
+   there (the premise of C09_cache_reuse_is_sound that the source establishes by the recovery number of an entry) *)
+Theorem C09_same_recovery_number_means_unchanged_list : forall (A : Type) ops (st : list A * nat) d j,
+  snd (fold_left (plstep A) ops st) = snd st -> j < List.length (fst st) ->
+  nth j (fst (fold_left (plstep A) ops st)) d = nth j (fst st) d.
+Proof. exact same_epoch_unchanged_below. Qed.
+Print Assumptions C09_same_recovery_number_means_unchanged_list.
